@@ -304,3 +304,28 @@ Proof.
         try (destruct E as [E [_ He]]; subst; try reflexivity;
              specialize (He eq_refl); congruence).
 Qed.
+
+(* a non-trivial instance satisfying the hypotheses of the theorems *)
+Lemma ex_nonvacuous :
+  holds_steps (IList [NInt 3; NFloat (Qmake (-2) 1); NBool false; NInt 1]) [3; -2; 0; 1] /\
+  NoDup [3; -2; 0; 1] /\
+  fh_init (IList [NInt 3; NFloat (Qmake (-2) 1); NBool false; NInt 1]) (RBool true)
+    = Ok (mkfh [-2; 0; 1; 3] true) /\
+  wf (mkfh [-2; 0; 1; 3] true) /\
+  gen_to_absolute (mkfh [-2; 0; 1; 3] true) (Some (-5)) = Ok (mkfh [-7; -5; -4; -2] false) /\
+  gen_to_in_sample (mkfh [-7; -5; -4; -2] false) (Some (-5)) = Ok (mkfh [-7; -5] false) /\
+  gen_to_out_of_sample (mkfh [-7; -5; -4; -2] false) (Some (-5)) = Ok (mkfh [-4; -2] false) /\
+  gen_to_indexer (mkfh [-7; -5; -4; -2] false) (Some (-5)) true = Ok [-3; -1; 0; 2].
+Proof.
+  split.
+  { apply HS_list.
+    apply Forall2_cons; [left; reflexivity|].
+    apply Forall2_cons; [right; right; eexists; split; reflexivity|].
+    apply Forall2_cons; [right; left; exists false; split; reflexivity|].
+    apply Forall2_cons; [left; reflexivity|]. constructor. }
+  split.
+  { repeat constructor; cbn [In]; intuition lia. }
+  split; [vm_compute; reflexivity|].
+  split; [unfold wf; cbn; lia|].
+  repeat split; vm_compute; reflexivity.
+Qed.
